@@ -704,15 +704,99 @@ func (f *FuncFacts) context(b *ssa.BasicBlock, rejEdge map[[2]int]bool) []ctxEdg
 					continue
 				}
 				if ok && len(ps) > 1 && f.isInlinedCall(iff.Cond) {
-					// a disjunctive predicate helper: written in place it is a block with several
-					// entries, which has no single dominating condition
+					// a disjunctive predicate helper: written in place it is a short-circuit chain,
+					// whose join block carries the disjunction of the alternatives (orJoin)
+					if gp, ok2 := f.condPaths(iff.Cond, k == 0, true, 0); ok2 && len(gp) > 1 {
+						var alts []string
+						for _, p := range gp {
+							if len(p) != 1 {
+								alts = nil
+								break
+							}
+							alts = append(alts, p[0])
+						}
+						if alts != nil {
+							sort.Strings(alts)
+							out = append(out, ctxEdge{d, k, "(" + strings.Join(alts, " || ") + ")", false})
+						}
+					}
 					continue
 				}
 			}
 			out = append(out, ctxEdge{d, k, f.c.condAtom(iff.Cond, k == 0), false})
 		}
 	}
+	// a block entered from a short-circuit chain (`if a || b { … }`, or `if !a && !b { return }; …`)
+	// is dominated by none of the chain's edges: its condition is the disjunction of their atoms
+	for _, j := range f.fn.Blocks {
+		if !j.Dominates(b) {
+			continue
+		}
+		if a, d, k, ok := f.orJoin(j, rejEdge); ok {
+			out = append(out, ctxEdge{d, k, a, false})
+		}
+	}
 	return out
+}
+
+// orJoin: j's predecessors are exactly the blocks c0 → c1 → … → cn of a short-circuit chain, each
+// ending in an If with one edge into j and the other to the next link (which has no other
+// predecessor). Returns the disjunction of the edge conditions (disjuncts sorted) with the last
+// link's edge as its position.
+func (f *FuncFacts) orJoin(j *ssa.BasicBlock, rejEdge map[[2]int]bool) (string, *ssa.BasicBlock, int, bool) {
+	if len(j.Preds) < 2 || len(j.Preds) > 8 {
+		return "", nil, 0, false
+	}
+	isPred := map[*ssa.BasicBlock]bool{}
+	for _, p := range j.Preds {
+		if isPred[p] || f.ifOf(p) == nil || p.Succs[0] == p.Succs[1] || j.Dominates(p) || f.loops[p] != nil {
+			return "", nil, 0, false
+		}
+		isPred[p] = true
+	}
+	// the root is the link whose own predecessors are outside the chain
+	var root *ssa.BasicBlock
+	for _, p := range j.Preds {
+		if len(p.Preds) == 1 && isPred[p.Preds[0]] {
+			continue
+		}
+		if root != nil {
+			return "", nil, 0, false
+		}
+		root = p
+	}
+	if root == nil {
+		return "", nil, 0, false
+	}
+	var atoms []string
+	cur, last, lastK := root, root, 0
+	for n := 0; n < len(j.Preds); n++ {
+		k := 0
+		if cur.Succs[1] == j {
+			k = 1
+		}
+		if cur.Succs[k] != j || rejEdge[[2]int{cur.Index, 1 - k}] || rejEdge[[2]int{cur.Index, k}] {
+			return "", nil, 0, false
+		}
+		if _, isLoop := f.loopCondAtom(cur, f.ifOf(cur), k); isLoop || f.isLoopExit(cur, k) {
+			return "", nil, 0, false
+		}
+		atoms = append(atoms, f.c.condAtom(f.ifOf(cur).Cond, k == 0))
+		last, lastK = cur, k
+		nx := cur.Succs[1-k]
+		if n == len(j.Preds)-1 {
+			if isPred[nx] {
+				return "", nil, 0, false
+			}
+			break
+		}
+		if !isPred[nx] || len(nx.Preds) != 1 {
+			return "", nil, 0, false
+		}
+		cur = nx
+	}
+	sort.Strings(atoms)
+	return "(" + strings.Join(atoms, " || ") + ")", last, lastK, true
 }
 
 func (f *FuncFacts) isLoopExit(d *ssa.BasicBlock, k int) bool {
